@@ -10,7 +10,7 @@ static void finish(void) {
     trace_on = 0;
     printf(" trace=[%s] live=%d%s", trace_buf, ledger_live(), ledger_errors ? " LEDGER-ERR" : "");
 }
-static char *cstr_tok(const char *tok) { size_t n; unsigned char *b = hexbuf(tok, &n); char *z = __real_malloc(n + 1); memcpy(z, b, n); z[n] = 0; __real_free(b); return z; }
+static char *cstr_tok(const char *tok) { size_t n; unsigned char *b = hexbuf(tok, &n); char *z = __real_malloc(n + 1); memcpy(z, b, n); z[n] = 0; hfree(b); return z; }
 
 static long tag_op(struct libwifi_tagged_parameters *tags, int kind, void *obj, char *o) {
     long r = 0;
@@ -18,13 +18,13 @@ static long tag_op(struct libwifi_tagged_parameters *tags, int kind, void *obj, 
         char *c2 = strchr(o + 2, ':'); *c2 = 0;
         size_t n; unsigned char *b = hexbuf(c2 + 1, &n);
         LIB(r = libwifi_quick_add_tag(tags, (int) tok_ll(o + 2), b, n));
-        __real_free(b); *c2 = ':';
+        hfree(b); *c2 = ':';
     } else if (o[0] == 'R') { LIB(r = libwifi_remove_tag(tags, (int) tok_ll(o + 2)));
     } else if (o[0] == 'K') { LIB(r = libwifi_check_tag(tags, (int) tok_ll(o + 2)));
     } else if (o[0] == 'S') {
         char *z = cstr_tok(o + 2);
         if (kind == 1) LIB(r = libwifi_set_probe_resp_ssid(obj, z)); else LIB(r = libwifi_set_beacon_ssid(obj, z));
-        __real_free(z);
+        hfree(z);
     } else if (o[0] == 'C') {
         uint8_t ch = (uint8_t) tok_ll(o + 2);
         switch (kind) {
@@ -75,12 +75,12 @@ static void op_allocgen(int nt, char **t) {
             printf(",%ld", rr < 0 ? -1 : rr);
             /* a failed call must not have lost what was stored */
             if (rr < 0 && (tags->length != before || (before && memcmp(copy, tags->parameters, before) != 0))) printf("(LOST:%c)", t[i][0]);
-            __real_free(copy);
+            hfree(copy);
         }
     printf(" tags="); out_hex(tags->parameters, tags->length);
     LIB(free(tags->parameters));
     finish();
-    __real_free(ssid); __real_free(el);
+    hfree(ssid); hfree(el);
 }
 
 static void op_allocact(int nt, char **t) {
@@ -96,7 +96,7 @@ static void op_allocact(int nt, char **t) {
         LIB(rr = libwifi_add_action_detail(&act.fixed_parameters.details, b, n));
         printf(",%ld", (long) rr < 0 ? -1 : (long) rr);
         if ((long) rr < 0 && act.fixed_parameters.details.detail_length != before) printf("(LOST)");
-        __real_free(b);
+        hfree(b);
     }
     printf(" detail="); out_hex((unsigned char *) act.fixed_parameters.details.detail, act.fixed_parameters.details.detail_length);
     LIB(libwifi_free_action(&act));
@@ -125,7 +125,7 @@ static void op_allocparse(int nt, char **t) {
     }
     LIB(libwifi_free_wifi_frame(&f));
     finish();
-    __real_free(b);
+    hfree(b);
 }
 
 /* release routines on zero-initialised objects */
